@@ -53,7 +53,7 @@ impl GenOpts {
         let strata: Vec<String> = o.get("strata").unwrap_or(default_strata).split(',').filter(|s| !s.is_empty()).map(|s| s.to_string()).collect();
         let strata = if strata.iter().any(|s| s == "all") { ALL_STRATA.iter().map(|s| s.to_string()).collect() } else { strata };
         let mut allow: BTreeSet<String> = strata.iter().cloned().collect();
-        for b in ["arith", "like", "inlist", "between", "or", "not", "isnull", "derived", "having", "outer_join", "semi_join", "cross_join", "cmp_col"] { allow.insert(b.to_string()); }
+        for b in ["arith", "like", "inlist", "between", "or", "not", "isnull", "derived", "having", "outer_join", "semi_join", "cross_join", "cmp_col", "sum_derived", "null_int_key"] { allow.insert(b.to_string()); }
         if let Some(a) = o.get("allow") { for x in a.split(',') { if !x.is_empty() { allow.insert(x.to_string()); } } }
         if let Some(d) = o.get("deny") { for x in d.split(',') { allow.remove(x); } }
         GenOpts { strata, allow, max_depth: o.get_usize("depth", 3), max_joins: o.get_usize("joins", 2).max(1) }
@@ -150,7 +150,7 @@ impl<'a> Gen<'a> {
         if leaf {
             if !cols.is_empty() && self.r.chance(4, 5) { let i = *self.r.pick(&cols); let e = if self.widen { self.wide_ref(sc, i) } else { Self::col_ref(sc, i) }; return (e, sc[i].bits); }
             // correlated reference to an enclosing scope
-            if !self.outer.is_empty() && self.r.chance(1, 3) {
+            if !self.outer.is_empty() && self.on("corr_free") && self.r.chance(1, 3) {
                 let oc = self.cols_of(&self.outer[0].clone(), ty);
                 if !oc.is_empty() { let i = *self.r.pick(&oc); let c = self.outer[0][i].clone(); self.tag("corr"); return (Expr::Outer { d: 1, i, sql: c.sql.clone() }, c.bits); }
             }
@@ -251,7 +251,12 @@ impl<'a> Gen<'a> {
             let k = self.r.below(10);
             if k < 2 { let a = self.pred(sc, depth - 1); let b = self.pred(sc, depth - 1); self.tag("and"); return Expr::and(a, b); }
             if k == 2 && self.on("or") { let a = self.pred(sc, depth - 1); let b = self.pred(sc, depth - 1); self.tag("or"); return Expr::bin(BinOp::Or, a, b); }
-            if k == 3 && self.on("not") { let a = self.pred(sc, depth - 1); self.tag("not"); return Expr::Un(UnOp::Not, Box::new(a)); }
+            if k == 3 && self.on("not") {
+                // NOT over an IN / EXISTS subquery is the NOT IN / NOT EXISTS class (features not_in / not_exists)
+                let a = self.pred(sc, depth - 1);
+                if a.has_subquery_deep() && !self.on("not_in") { return a; }
+                self.tag("not"); return Expr::Un(UnOp::Not, Box::new(a));
+            }
             if k == 4 && self.on("subquery") && self.qdepth < 2 { if let Some(e) = self.subquery_pred(sc) { return e; } }
         }
         let ty = self.cmp_types(sc);
